@@ -150,6 +150,39 @@ def shard(ctx, si, payload):
         ctx.obs["shared_state_attribute_writes_sync"] = len(fz.get("writes", []))
         ctx.obs["shared_state_changed_sync"] = not fz.get("digest_equal", True)
         ctx.sample({"events": [[float(x[i]) for x in ev_all] for i in range(2)], "sequential_model": [[float(seq_all[0][i]), float(seq_all[1][i])] for i in range(2)]})
+    elif fam == "real-cloud":
+        # the shipped pressure-map cloud model as the cloud function: events packed into three
+        # adjacent latitude rows of the map at random longitudes (few rows, many columns: any
+        # per-cell state kept inside the cloud function meets many events per key and many keys).
+        # The one-at-a-time model runs in *reverse* order on its own cloud object.
+        from nuspacesim.config import NssConfig, Simulation
+        from nuspacesim.simulation.atmosphere.clouds import CloudTopHeight
+
+        n_c = payload["n"]
+        r_ = ctx.subrng("c10-real-cloud")
+        row0 = float(r_.integers(-60, 60))
+        ev_c = (r_.uniform(math.radians(3), math.radians(25), n_c), r_.uniform(0.0, 4.0, n_c), 10 ** r_.uniform(-1, 2, n_c), np.radians(row0 + 0.5 * r_.integers(0, 3, n_c) + 0.1), r_.uniform(-math.pi, math.pi, n_c))
+        cc = NssConfig()
+        cc.simulation.cloud_model = Simulation.PressureMapCloud(month=int(r_.integers(1, 13)))
+        kq = CphotAng(525.0)
+        cl_ref = CloudTopHeight(cc)
+        ref = [None] * n_c
+        for i in reversed(range(n_c)):
+            ref[i] = kq.run(*(x[i] for x in ev_c), cl_ref)
+        ref_c = (np.asarray([o[0] for o in ref]), np.array([o[1] for o in ref]))
+        tops = np.array([float(CloudTopHeight(cc)(la, lo)) for la, lo in zip(ev_c[3][:50], ev_c[4][:50])])
+        ctx.obs["real_cloud_distinct_tops_in_first_50"] = int(np.unique(tops).size)
+        for name, kw in (("synchronous", {"scheduler": "synchronous"}), ("threads-4", {"scheduler": "threads", "num_workers": 4}), ("processes-2", {"scheduler": "processes", "num_workers": 2})):
+            try:
+                with dask.config.set(**kw):
+                    got = batch(ev_c, cloudf=CloudTopHeight(cc))
+            except Exception as e:
+                ctx.exception("scheduler", f"{name}: batch with the pressure-map cloud model raised", e, {"scheduler": name})
+                continue
+            ctx.count("real-cloud", n_c)
+            ctx.distinct.add(("real-cloud", name))
+            if not same(got, ref_c):
+                ctx.violation("scheduler", f"{name}: pressure-map cloud model, {n_c} events in three adjacent map rows: batch differs from one-at-a-time evaluation (done in reverse order on another cloud object): {describe_diff(got, ref_c)}", {"scheduler": name, "n": n_c, "cloud": "pressure-map"})
     elif fam == "threads":
         for nw in payload["workers"]:
             for n in sizes:
@@ -282,6 +315,7 @@ def run(ctx):
         {"family": "threads", "workers": [1, 2]},
         {"family": "threads", "workers": [8, 16]},
         {"family": "processes", "workers": [2], "sizes": [2, 101, 250] if not T else sz_all},
+        {"family": "real-cloud", "n": 450 if not T else 1500},
         {"family": "adversarial", "n": 40, "ps": 5, "nsched": 30 if not T else 150},
         {"family": "adversarial", "n": 250, "ps": 25, "nsched": 6 if not T else 60},
         {"family": "adversarial", "n": 12, "ps": 3, "nsched": 0, "enumerate": True},
@@ -293,7 +327,7 @@ def run(ctx):
     if T:
         P += [{"family": "processes", "workers": [4], "sizes": [2, 101, 250]}, {"family": "adversarial", "n": 15, "ps": 3, "nsched": 0, "enumerate": True}, {"family": "yield", "nseeds": 60}, {"family": "yield", "nseeds": 60}]
     core.run_shards(ctx, "nssmon.checks.c10", "shard", P, workers=min(16, len(P)), timeout=ctx.pick(900, 6000))
-    for m in ("scheduler", "configured-kernel", "partitions", "adversarial", "yield", "frozen-state", "faults", "faults-control"):
+    for m in ("scheduler", "real-cloud", "configured-kernel", "partitions", "adversarial", "yield", "frozen-state", "faults", "faults-control"):
         ctx.require(m)
     return ctx.finish(
         rule="batches of {1,2,99,100,101,250} unique events, each with its own cloud top (a position-dependent cloud function), under every scheduler family; partition sizes {1,2,3,7,100,n,n+1}; adversarial start/release orders (seeded, and all P! start orders for P = 4 [5 in thorough]); yield-injected 4-thread runs with the shared kernel frozen; a failing event at every position of 25 and at {0,99,100,125,249} of 250; a case is a distinct (family, schedule / scheduler / partitioning / fault position); every one is non-trivial (it is compared with the sequential model or must raise)",
